@@ -185,6 +185,10 @@ type Spec struct {
 	GenesisVaults    [][3]uint64 `json:"genesis_vaults"`
 	CrossDelegations [][3]uint64 `json:"cross_delegations"` // (from user idx, to entity idx, amount)
 	Debonding        [][3]uint64 `json:"debonding"`         // (from user idx, to entity idx, amount) at epoch base+1..
+	// DebondChains: further genesis debonding delegations (delegator: entity idx, or 1000+user idx; escrow entity idx;
+	// amount; end epoch = base-1+offset) - lets an account be the escrow of one entry and the delegator of another that
+	// matures at the same transition.
+	DebondChains [][4]uint64 `json:"debond_chains,omitempty"`
 }
 
 // GenesisTime is the fixed genesis time of all generated chains.
@@ -521,6 +525,36 @@ func BuildGenesis(spec *Spec) (*World, error) {
 			st.DebondingDelegations[eaddr] = map[staking.Address][]*staking.DebondingDelegation{}
 		}
 		st.DebondingDelegations[eaddr][uaddr] = append(st.DebondingDelegations[eaddr][uaddr], deb)
+	}
+	for _, dc := range spec.DebondChains {
+		from, e, amount, off := int(dc[0]), int(dc[1]), dc[2], dc[3]
+		var faddr staking.Address
+		switch {
+		case from >= 1000 && from-1000 < len(w.Users):
+			faddr = staking.NewAddress(w.Users[from-1000].Public())
+		case from < len(w.Entities):
+			faddr = w.Entities[from].Address()
+		default:
+			continue
+		}
+		if e >= len(w.Entities) || amount == 0 {
+			continue
+		}
+		eaddr := w.Entities[e].Address()
+		ea := acct(eaddr)
+		if ea.Escrow.Debonding.Balance.IsZero() && !ea.Escrow.Debonding.TotalShares.IsZero() {
+			continue
+		}
+		src, amt := q(amount), q(amount)
+		deb := &staking.DebondingDelegation{DebondEndTime: doc.Beacon.Base - 1 + beacon.EpochTime(off)}
+		if _, err := ea.Escrow.Debonding.Deposit(&deb.Shares, &src, &amt); err != nil || deb.Shares.IsZero() {
+			continue
+		}
+		_ = total.Add(&amt)
+		if st.DebondingDelegations[eaddr] == nil {
+			st.DebondingDelegations[eaddr] = map[staking.Address][]*staking.DebondingDelegation{}
+		}
+		st.DebondingDelegations[eaddr][faddr] = append(st.DebondingDelegations[eaddr][faddr], deb)
 	}
 	st.TotalSupply = *total
 	doc.Staking = st
